@@ -154,6 +154,10 @@ def build_file(L, wire, services, rng, force=None):
         model['chunks'].insert(at, {'name': 'PROP', 'compression': rng.choice(['none', 'lz4', 'zstd']), 'compressed_len': 0, 'len': 0, 'reserved': 0, 'body': body})
         tags.append('skip.' + kind)
     for ch in model['chunks']:
+        if ch['compression'] == 'zstd' and rng.random() < 0.5:
+            # a frame without the optional content-size field (streaming encoders)
+            ch['zstd_form'] = 'nosize'
+            tags.append('comp.zstd.no-content-size')
         tags.append('comp.' + ch['compression'])
         if ch['name'] not in ('META', 'SSTR', 'INST', 'PROP', 'PRNT', 'END\0'):
             tags.append('unknown-chunk')
